@@ -190,3 +190,61 @@ pub open spec fn is_ImageIntension_from(t: Term, with_placeholder: Seq<Term>) ->
         && v@ == with_placeholder.remove(i as int) && i <= v.len()
 }
 pub open spec fn is_Negation(t: Term, a: Term) -> bool { t matches Term::Negation(x) && *x == a }
+
+// ---- C17 / parser: what the mutators do (reference model taken from the property text) ----
+pub open spec fn named_atom_name(t: Term) -> Option<String> {
+    match t {
+        Term::Word(n) | Term::VariableIndependent(n) | Term::VariableDependent(n)
+        | Term::VariableQuery(n) | Term::Operator(n) => Some(n),
+        _ => None,
+    }
+}
+/// same constructor among the atoms
+pub open spec fn atom_kind_same(a: Term, b: Term) -> bool {
+    (a is Word <==> b is Word) && (a is Placeholder <==> b is Placeholder)
+    && (a is VariableIndependent <==> b is VariableIndependent)
+    && (a is VariableDependent <==> b is VariableDependent)
+    && (a is VariableQuery <==> b is VariableQuery) && (a is Interval <==> b is Interval)
+    && (a is Operator <==> b is Operator)
+}
+/// appending components: in order for ordered compounds (an image keeps its index), united into
+/// unordered ones
+pub open spec fn pushed_components(old: Term, cs: Seq<Term>, new: Term) -> bool {
+    match old {
+        Term::Product(v) => is_Product(new, v@ + cs),
+        Term::ConjunctionSequential(v) => is_ConjunctionSequential(new, v@ + cs),
+        Term::ImageExtension(i, v) => new matches Term::ImageExtension(j, w) && j == i && w@ == v@ + cs,
+        Term::ImageIntension(i, v) => new matches Term::ImageIntension(j, w) && j == i && w@ == v@ + cs,
+        Term::SetExtension(s) => is_SetExtension(new, s@.union(cs.to_set())),
+        Term::SetIntension(s) => is_SetIntension(new, s@.union(cs.to_set())),
+        Term::IntersectionExtension(s) => is_IntersectionExtension(new, s@.union(cs.to_set())),
+        Term::IntersectionIntension(s) => is_IntersectionIntension(new, s@.union(cs.to_set())),
+        Term::Conjunction(s) => is_Conjunction(new, s@.union(cs.to_set())),
+        Term::Disjunction(s) => is_Disjunction(new, s@.union(cs.to_set())),
+        Term::ConjunctionParallel(s) => is_ConjunctionParallel(new, s@.union(cs.to_set())),
+        _ => false,
+    }
+}
+
+/// a non-empty component list gives a non-empty component set
+pub broadcast proof fn lemma_nonempty_seq_to_set(s: Seq<Term>)
+    requires s.len() > 0
+    ensures #[trigger] s.to_set().len() > 0
+{
+    assert(s.to_set().contains(s[0]));
+    if s.to_set().len() == 0 {
+        s.to_set().lemma_len0_is_empty();
+        assert(false);
+    }
+}
+/// ... also after uniting it into another set
+pub broadcast proof fn lemma_union_nonempty(a: Set<Term>, s: Seq<Term>)
+    requires s.len() > 0
+    ensures #[trigger] a.union(s.to_set()).len() > 0
+{
+    assert(a.union(s.to_set()).contains(s[0]));
+    if a.union(s.to_set()).len() == 0 {
+        a.union(s.to_set()).lemma_len0_is_empty();
+        assert(false);
+    }
+}
